@@ -40,8 +40,8 @@ def bounds(tier):
             "batch": [[], [2], [2, 1]]}
 
 
-GR_Q = [[4], [1], [5], [3, 4], [1, 3], [2, 2, 3]]
-GR_T = [[4], [1], [2], [3], [5], [7], [8], [12], [3, 4], [1, 3], [2, 2], [4, 5], [6, 6], [5, 1], [2, 2, 3], [3, 1, 2], [3, 3, 3], [2, 3, 2], [4, 2, 3]]
+GR_Q = [[4], [1], [5], [3, 4], [1, 3], [2, 2, 3], [1, 3, 4]]
+GR_T = [[4], [1], [2], [3], [5], [7], [8], [12], [3, 4], [1, 3], [2, 2], [4, 5], [6, 6], [5, 1], [2, 2, 3], [3, 1, 2], [3, 3, 3], [2, 3, 2], [4, 2, 3], [1, 3, 4], [2, 3, 1]]
 
 
 def gen_cases(tier, seed):
